@@ -38,6 +38,7 @@ SELFTESTS = (
     ("MC_kf1.cfg", "WiringMatchesApply", "KF-C10-1: ket attached to the operator's upper leg"),
     ("MC_kf2.cfg", "EndNormalizedAnyCap", "KF-C10-2: last split truncates when cap < d, no renormalisation"),
     ("MC_kf3.cfg", "CanonAtUpdateAlways", "KF-C10-3: one-site alternate sweep not canonized after the bond expansion"),
+    ("MC_kf5.cfg", "PosInRange", "KF-C10-5: L = bsz, left sweep: init_segment uses an unbound loop variable"),
 )
 
 
@@ -164,7 +165,7 @@ def run_one(rec, rng, tid, spec):
             run["ep0"] = q7(m0.emd)
             run["ketleg"] = "upper" if dm._k.site_ind_id == dm.ham.upper_ind_id else (
                 "lower" if dm._k.site_ind_id == dm.ham.lower_ind_id else "?")
-            rec.arm(dm, ham, Hd, tid, cplx, d, ep0T=m0.emT)
+            rec.arm(dm, ham, Hd, tid, cplx, d, ep0T=m0.emT, solver_seed=int(rng.integers(1 << 30)))
             conv = False
             if spec["mode"] == "solve":
                 conv = dm.solve(tol=spec["tol"], sweep_sequence="".join(seq), max_sweeps=spec["maxsw"])
@@ -210,6 +211,7 @@ def run_one(rec, rng, tid, spec):
                          "energies": [], "ema": 0, "emd": 0, "n7": 0, "bonds": [], "lasttrunc": False,
                          "capltd": False, "infid7": 0, "wts": [], "tconj": False, "tconjgs": False,
                          "noniso": noniso, "solverexc": type(ex).__name__ in ("ArpackNoConvergence", "ArpackError"),
+                         "excname": type(ex).__name__, "Leqbsz": bool(L == bsz),
                          "exc": type(ex).__name__ + ": " + str(ex)[:120]})
     return len(rec.recs) - recs0
 
@@ -227,9 +229,10 @@ def periodic_runs(rng, tid0):
         r = {"ev": "periodic", "tid": tid0 + k, "cplx": False, "tconj": False, "bsz": bsz, "L": L, "exc": "",
              "e": 0, "ema": 0, "emd": 0, "n7": 0, "e0q": 0}
         try:
-            with warnings.catch_warnings():
+            with warnings.catch_warnings(), U.Recorder() as rec:
                 warnings.simplefilter("ignore")
                 qu.seed_rand(int(rng.integers(1 << 30)))
+                rec.cur = {"dmrg": None, "solver_seed": int(rng.integers(1 << 30)), "neigsh": 0}   # seeds ARPACK only
                 ham = qtn.MPO_ham_heis(L, j=(1.0, 1.0, float(rng.uniform(0.5, 1.5))), bz=float(rng.uniform(0, 0.5)), cyclic=True)
                 Hd = np.asarray(ham.to_dense())
                 dm = qtn.DMRG(ham, bond_dims=[4, 8], cutoffs=1e-10, bsz=bsz)
@@ -253,6 +256,8 @@ def sample_spec(rng, tier, k):
         L = int(rng.choice([4, 5, 6] if not thorough else [3, 4, 5, 6, 7, 8]))
     else:
         L = int(rng.choice([3, 4] if not thorough else [3, 4, 5]))
+    if rng.random() < 0.04:
+        L = 2                                   # the shortest chain (L = bsz for two-site DMRG)
     fam = "classical" if rng.random() < 0.5 else "generic"
     if fam == "classical":
         kind = str(rng.choice(["field", "ising", "degenerate", "table"]))
@@ -363,7 +368,12 @@ def run(ctx):
     for n in notes[:10]:
         ctx.notes.append("%s at tid=%s ev=%s" % (n["clause"], n["record"].get("tid"), n["record"].get("ev")))
     ctx.extra["notes_count"] = len(notes)
-    ctx.clauses.update(["model: NoStaleEnv CanonAtUpdate PosInRange SweepOrder ReportedIsCurrent BondCap EndNormalized"])
+    ctx.clauses.update(["Returns", "InputIsHermitian", "ConventionPinned", "OracleAgrees", "ScheduleFollowed", "SweepOrder",
+                        "SweepComplete", "NoStaleEnv", "TotalEnergyIsExpectation", "ReportedEqualsMeasured", "RoutesAgree",
+                        "Variational", "Monotone", "BondCap", "FullRankKeepsNorm", "Normalized", "EnergyIsLastUpdate",
+                        "EnergiesAreSweepEnds", "StopsWhenConverged", "ConvergedExact", "TraceWellFormed",
+                        "ReportedEqualsMeasured.Periodic", "Normalized.Periodic",
+                        "model: NoStaleEnv CanonAtUpdate PosInRange SweepOrder ReportedIsCurrent BondCap EndNormalized"])
     ctx.assumptions += [
         "open boundaries in the main runs; which='SA'; float64/complex128 tensors",
         "one-site DMRG: non-decreasing bond schedules and p0 within the cap (bond_dims is the size the state is expanded to)",
